@@ -2458,10 +2458,10 @@ theorem uart_crossover_no_loss (dtx drx : Nat) (rxWe : Bool) (ins : List (CsrIn 
       xoReadM dtx drx rxWe m.init ins ++ dataOf (fbInflight s.main.rx) ++ dataOf (pvInflight s.xtx) ∧
     s.main.rx.q.length ≤ drx := by
   intro m s
-  have h1 := xover_run dtx drx rxWe ins m.init (by simp [m, uartCrossover, xoverInit, syncFifoBuffered])
-    (by simp [m, uartCrossover, xoverInit, syncFifoBuffered])
-  have h2 := xover_run_back dtx drx rxWe ins m.init (by simp [m, uartCrossover, xoverInit, syncFifoBuffered])
-    (by simp [m, uartCrossover, xoverInit, pipeValid, zTokN])
+  have h1 := xover_run dtx drx rxWe ins m.init (by simp [m, uartCrossover, xoverInit, Stream.syncFifoBuffered])
+    (by simp [m, uartCrossover, xoverInit, Stream.syncFifoBuffered])
+  have h2 := xover_run_back dtx drx rxWe ins m.init (by simp [m, uartCrossover, xoverInit, Stream.syncFifoBuffered])
+    (by simp [m, uartCrossover, xoverInit, Stream.pipeValid, zTokN])
   refine ⟨?_, h1.2.1, h1.2.2, ?_, h2.2.1⟩
   · have := h1.1
     have e0 : dataOf (fbInflight m.init.xrx) ++ dataOf (fbInflight m.init.main.tx) = [] := rfl
